@@ -30,7 +30,7 @@ type Op struct {
 	Scope int      `json:"s"`
 	Name  string   `json:"n,omitempty"`
 	Val   int      `json:"v,omitempty"`
-	Addr  bool     `json:"addr,omitempty"` // store an addressable value
+	Addr  bool     `json:"addr,omitempty"`  // store an addressable value
 	Iface int      `json:"iface,omitempty"` // 1: use the interface{} variant of the call; 2: and pass nil
 	Path  []string `json:"path,omitempty"`
 	Stub  int      `json:"stub,omitempty"`
